@@ -735,6 +735,12 @@ func vEncodeDoc(name string, root *etree.Element, mode int) string {
 		raw = vxDeflate(vxPadTo(raw, vxI64(n+".inflated_len")))
 	case 2:
 		raw = append([]byte(`<?xml version="1.0" encoding="ISO-8859-1"?>`), raw...)
+	case 3:
+		// padding required (length not a multiple of 3), then stripped
+		for len(raw)%3 == 0 {
+			raw = append(raw, ' ')
+		}
+		return strings.TrimRight(base64.StdEncoding.EncodeToString(raw), "=")
 	}
 	return base64.StdEncoding.EncodeToString(raw)
 }
